@@ -48,6 +48,9 @@ type upCase struct {
 	// Finish: after the chunks, send 0x1212 for every file; Second: then resend what the first report named and send 0x1212 again
 	Finish bool `json:"finish"`
 	Second bool `json:"second_round,omitempty"`
+	// Tail: after the completion frames, these (already received) chunks are resent, each directly behind a control
+	// frame (0x1212 before it, 0x1212 again after it)
+	Tail []upChunk `json:"tail,omitempty"`
 	// Segmentation of the whole byte stream into reads: "unit" (one frame/chunk per read), "all" (one read), or explicit cut offsets
 	Cuts    []int  `json:"cuts,omitempty"`
 	Seg     string `json:"segmentation"`
@@ -120,6 +123,12 @@ func upUnits(c upCase, firstReport map[int][][2]uint32) (units [][]byte, kinds [
 			}
 			ctl(0x1212, ref.Body1211(f.Name, 0, files[i].Size))
 		}
+	}
+	for _, ch := range c.Tail {
+		data := unhx(c.Files[ch.File].Data)
+		units = append(units, ref.StreamChunk(d, c.Files[ch.File].Name, uint32(ch.Off), data[ch.Off:ch.Off+ch.Len]))
+		kinds = append(kinds, "chunk")
+		ctl(0x1212, ref.Body1211(c.Files[ch.File].Name, 0, files[ch.File].Size))
 	}
 	if c.Second && firstReport != nil {
 		for i, f := range c.Files {
@@ -430,7 +439,7 @@ func init() {
 	})
 	vc.Register(&vc.Check{
 		ID: "C19", Level: "exploration",
-		Rule: "complete upload sessions (0x1210, 0x1211, chunks, 0x1212, EOF) with the DEFAULT file handler on a virtual file system rooted at a sandbox directory, for announced names = ALL strings of length 1..6 over {a . /} (1092), each also with a leading '/', with an embedded NUL, '../' repeated up to the 255-byte wire limit, 50-byte chunk-header names, names that resolve to existing files outside (../file.log), x 3 phones. " +
+		Rule: "complete upload sessions (0x1210, 0x1211, chunks, 0x1212, EOF) with the DEFAULT file handler on a virtual file system rooted at a sandbox directory, for announced names = ALL strings of length 1..6 over {a . /} (1092), each also with a leading '/', with an embedded NUL, '../' repeated up to the 255-byte wire limit, 50-byte chunk-header names, names that resolve to existing files outside (../file.log), names that climb out into a sibling whose name begins with the terminal's own directory name (../<phone>1/x, ../<phone>.bak/z, ../<phone>_note), x 3 phones. " +
 			"Every create/write target of the handler is logged by the vos shim (and carried out only inside the sandbox); it must lie under <root>/<phone>/ (the handler's own file.log excepted). Non-trivial = name contains '..' or '/'",
 		Assumptions: []string{"the os calls of attachment/file_event.go are routed to harness/vos by import rewriting (vgen); paths are resolved lexically (no symlinks in the sandbox)"},
 		Run:         c19Run,
@@ -540,6 +549,14 @@ func c15Run(ctx *vc.Ctx, rep *vc.Report) {
 					}
 					heavy := len(ord) <= 2 || isIdentity(ord)
 					segs(c, heavy && (size <= 3 || ctx.Thorough()))
+					// every chunk resent right behind the completion frame (and the file finished again)
+					for which := range base {
+						d := c
+						d.Tail = []upChunk{base[which]}
+						segs(d, false)
+					}
+					// the first chunk sent once before its file is announced with 0x1211 is NOT generated: chunks of
+					// unannounced files are outside a well-formed session
 					// one resent chunk at every position
 					for pos := 0; pos <= len(c.Chunks); pos++ {
 						for which := range base {
@@ -847,7 +864,10 @@ func c19Run(ctx *vc.Ctx, rep *vc.Report) {
 	sort.Strings(names)
 	var idx int64
 	for _, phone := range []string{"13800138000", "1", "999999999999"} {
-		for _, n := range names {
+		// names that climb out and land on a sibling whose name starts with this terminal's own directory name
+		ph := ref.PhoneString(ref.BCD(phone, 6))
+		sib := []string{"../" + ph + "1/x.jpg", "../" + ph + ".bak/z.bin", "../" + ph + "_note", "../" + ph, "../" + ph + "/../" + ph + "x/y", "a/../../" + ph + "0/f"}
+		for _, n := range append(append([]string(nil), names...), sib...) {
 			for _, seg := range []string{"unit", "all"} {
 				idx++
 				if !ctx.Mine(idx) {
